@@ -237,3 +237,68 @@ func Catch(f func()) (panicked bool, val any) {
 	f()
 	return false, nil
 }
+
+// Fork returns a context for a sub-case that runs on its own goroutine next to others:
+// it has a private Result (no lock shared with its siblings while it runs) and its own
+// PRNG. Join merges it back.
+func (c *Ctx) Fork(index int64, seed uint64) *Ctx {
+	r := NewResult(c.Prop, c.Mode, c.Build)
+	ch := NewCtx(r, index, seed, c.RunSeed, c.Tier, c.Verbose, c.Tagged)
+	ch.Param = c.Param
+	return ch
+}
+
+// Join merges a forked context's observations into c. Violations are re-addressed to
+// c's own mode and case index (that is the case to replay); note says which sub-case it was.
+func (c *Ctx) Join(ch *Ctx, note string) {
+	o := ch.res
+	o.mu.Lock()
+	defer o.mu.Unlock()
+	c.res.mu.Lock()
+	defer c.res.mu.Unlock()
+	for k, v := range o.Counters {
+		c.res.Counters[k] += v
+	}
+	for k, v := range o.Maxes {
+		if old, ok := c.res.Maxes[k]; !ok || v > old {
+			c.res.Maxes[k] = v
+		}
+	}
+	for class, m := range o.distinct {
+		dst := c.res.distinct[class]
+		if dst == nil {
+			dst = map[uint64]struct{}{}
+			c.res.distinct[class] = dst
+		}
+		for h := range m {
+			dst[h] = struct{}{}
+		}
+	}
+	if len(o.nontrivial) > 0 {
+		// the parent case counts once, however many of its sub-cases were non-trivial
+		c.res.nontrivial[Mix(c.Seed, 0x9a7)] = struct{}{}
+	}
+	for _, s := range o.Samples {
+		if len(c.res.Samples) < 2 {
+			c.res.Samples = append(c.res.Samples, s)
+		}
+	}
+	for _, v := range o.Violations {
+		c.violated = true
+		v.Mode, v.Index, v.CaseSeed = c.Mode, c.Index, c.Seed
+		v.Msg += " " + note
+		if len(c.res.Violations) < 25 {
+			c.res.Violations = append(c.res.Violations, v)
+		}
+	}
+	for _, in := range o.Inconclusive {
+		c.res.Counters["inconclusive"]++
+		in.Mode, in.Index, in.CaseSeed = c.Mode, c.Index, c.Seed
+		if len(c.res.Inconclusive) < 20 {
+			c.res.Inconclusive = append(c.res.Inconclusive, in)
+		}
+	}
+	for k, v := range o.Notes {
+		c.res.Notes[k] = v
+	}
+}
